@@ -428,6 +428,6 @@ func init() {
 			}
 			return w
 		},
-		BudgetS: [2]int{150, 1500},
+		BudgetS: [2]int{170, 2700},
 	})
 }
